@@ -83,7 +83,7 @@ def case(cid, rng, sc):
     user_scaler = kind in ("scale-source", "scale-target", "shift-source", "shift-target") and rng.random() < 0.4
     tr, te = (perm[:12], perm[12:]) if explicit else (None, None)
     c = {"id": cid, "kind": kind, "dx": dx, "dy": dy, "est": est_kind, "user_scaler": user_scaler, "raised": "", "X": np.round(X, 6).tolist(), "Y": np.round(Y, 6).tolist(),
-         "base": {}, "trans": {}, "ntest": int(len(te)) if te is not None else 0, "plre_seq": [], "plre_par": [], "lre_fix": 0, "lre_bigshift": 0, "lre_col": 0, "lre_colscaled": 0, "gre_lin": 0, "grd_orth": 0, "gre_train": 0, "lre_all": [], "pgre_all": []}
+         "base": {}, "trans": {}, "ntest": int(len(te)) if te is not None else 0, "plre_seq": [], "plre_par": [], "lre_self": 0, "lre_self_rot": 0, "lre_fix": 0, "lre_bigshift": 0, "lre_col": 0, "lre_colscaled": 0, "gre_lin": 0, "grd_orth": 0, "gre_train": 0, "lre_all": [], "pgre_all": []}
     try:
         with warnings.catch_warnings():
             warnings.simplefilter("ignore")
@@ -120,6 +120,12 @@ def case(cid, rng, sc):
             kwx = dict(train_idx=tr, test_idx=te)
             c["lre_fix"] = q1(_lre(X, Y, n_local, estimator=fixed(), **kwx))
             c["lre_bigshift"] = q1(_lre(X + rng.integers(1, 10, size=dx) * 1e6, Y, n_local, estimator=fixed(), **kwx))
+            # LRE evaluated ON the training points (every test point coincides with a training point: its squared distance is
+            # zero up to rounding, of either sign) must still not depend on a rotation of the source space
+            idx_self = perm[:14]
+            Rself = rat_rot(dx, ang, rng=rng)
+            c["lre_self"] = q1(_lre(X, Y, max(2, min(n_local, 8)), estimator=fixed(), train_idx=idx_self, test_idx=idx_self))
+            c["lre_self_rot"] = q1(_lre(X @ Rself, Y, max(2, min(n_local, 8)), estimator=fixed(), train_idx=idx_self, test_idx=idx_self))
             from skmatter.metrics import pointwise_local_reconstruction_error as _plre
             c["plre_seq"] = ql(_plre(X, Y, n_local, estimator=fixed(), **kwx))
             c["plre_par"] = ql(_plre(X, Y, n_local, estimator=fixed(), n_jobs=2, **kwx))        # results in input order, whatever the scheduling
@@ -162,7 +168,7 @@ def gen(args):
     return [case("s%d" % k, rng, sc) for k, sc in core.timed(scs)]
 
 
-KEYS = ("id", "kind", "dx", "dy", "raised", "base", "trans", "gre_lin", "grd_orth", "gre_train", "lre_all", "pgre_all", "lre_fix", "lre_bigshift", "lre_col", "lre_colscaled", "ntest", "plre_seq", "plre_par")
+KEYS = ("id", "kind", "dx", "dy", "raised", "base", "trans", "gre_lin", "grd_orth", "gre_train", "lre_all", "pgre_all", "lre_fix", "lre_bigshift", "lre_col", "lre_colscaled", "ntest", "plre_seq", "plre_par", "lre_self", "lre_self_rot")
 
 
 def strip(c):
